@@ -6,6 +6,9 @@ import IoosQc.Props.C01C02
 import IoosQc.Props.C04
 import IoosQc.Props.C20
 import IoosQc.Model.Streams
+import IoosQc.Props.C16
+import IoosQc.Props.C17
+import IoosQc.Props.C15
 
 open Lean IoosQc IoosQc.Wire
 
@@ -137,6 +140,71 @@ def handleWindow (j : Json) : D Json := do
   pure (Json.mkObj [("spec", Json.arr (ws.map fun w => boolsToJson (specMask w ts)).toArray),
                     ("mechanism", Json.arr (ws.map fun w => boolsToJson (mech w)).toArray)])
 
+/-- kind = "c16": the same test on the same data under a loose and a strict parameter set. -/
+def handleC16 (j : Json) : D Json := do
+  let c ← field j "call" >>= asCall
+  let c' ← field j "call2" >>= asCall
+  let o ← field j "obs" >>= asObs
+  let o' ← field j "obs2" >>= asObs
+  let m := (c.run periodOf).toObs
+  let m' := (c'.run periodOf).toObs
+  pure (Json.mkObj
+    [ ("in_dom", toJson (c.inDom && c'.inDom && c.validParams periodOf)),
+      ("stricter", toJson (stricter c c')),
+      ("holds", toJson (C16.holds o o')),
+      ("agree1", toJson (conforms (c.spec periodOf) o)),
+      ("agree2", toJson (conforms (c'.spec periodOf) o')),
+      ("model_holds", toJson (C16.holds m m')),
+      ("model", obsToJson m), ("model2", obsToJson m') ])
+
+def asTransform (j : Json) : D Transform := do
+  let k ← field j "kind" >>= asStr
+  match k with
+  | "addValue" => .addValue <$> (field j "k" >>= asRat)
+  | "negate" => pure .negate
+  | "shiftTime" => .shiftTime <$> (field j "tau" >>= asInt)
+  | "shiftBoth" => .shiftBoth <$> (field j "k" >>= asRat)
+  | "reverse" => pure .reverse
+  | "perturb" => do pure (.perturb (← field j "j" >>= asNat) (← getOpt asRat j "v"))
+  | "perturbAux" => do pure (.perturbAux (← field j "j" >>= asNat) (← getOpt asRat j "v"))
+  | "perturbPos" => do
+    pure (.perturbPos (← field j "j" >>= asNat) (← getOpt asRat j "lon") (← getOpt asRat j "lat")
+      (← field j "hops" >>= asList asV))
+  | s => throw s!"unknown transform {s}"
+
+/-- kind = "c17": a call, a transformation, the transformed call as the harness built it, and
+    the two observations. -/
+def handleC17 (j : Json) : D Json := do
+  let c ← field j "call" >>= asCall
+  let t ← field j "transform" >>= asTransform
+  let c2 ← field j "call2" >>= asCall
+  let o ← field j "obs" >>= asObs
+  let o' ← field j "obs2" >>= asObs
+  let applied := applyT t c
+  let same := match applied with | some c' => decide (c' = c2) | none => false
+  let m := (c.run periodOf).toObs
+  let m' := (c2.run periodOf).toObs
+  pure (Json.mkObj
+    [ ("in_dom", toJson (c.inDom && c2.inDom && c.validParams periodOf)),
+      ("applies", toJson applied.isSome),
+      ("same_transform", toJson same),
+      ("holds", toJson (C17.holds t c o o')),
+      ("agree1", toJson (conforms (c.spec periodOf) o)),
+      ("agree2", toJson (conforms (c2.spec periodOf) o')),
+      ("model_holds", toJson (C17.holds t c m m')),
+      ("model", obsToJson m), ("model2", obsToJson m') ])
+
+/-- kind = "c15": one logical call, the observations obtained through several carriers. -/
+def handleC15 (j : Json) : D Json := do
+  let c ← field j "call" >>= asCall
+  let os ← field j "obs_list" >>= asList asObs
+  let m := (c.run periodOf).toObs
+  pure (Json.mkObj
+    [ ("in_dom", toJson (c.inDom && c.validParams periodOf)),
+      ("holds", toJson (C15.holds periodOf c os)),
+      ("conform", Json.arr (os.map fun o => toJson (conforms (c.spec periodOf) o)).toArray),
+      ("model", obsToJson m) ])
+
 def dispatch (kind : String) (j : Json) : D Json :=
   match kind with
   | "test" => handleTest j
@@ -145,6 +213,9 @@ def dispatch (kind : String) (j : Json) : D Json :=
   | "fx_eval" => handleFxEval j
   | "fx_valid" => handleFxValid j
   | "window" => handleWindow j
+  | "c16" => handleC16 j
+  | "c17" => handleC17 j
+  | "c15" => handleC15 j
   | k => throw s!"unknown kind {k}"
 
 end IoosQc.Handlers
